@@ -3238,6 +3238,13 @@ def where(condition: ArrayOrScalar,
     expr3 = utils.update_bindings_and_get_broadcasted_expr(y, "_in2", bindings,
                                                            result_shape)
 
+    # Cast the branches to the result's dtype, as binary operations do:
+    # otherwise the target language's promotion rules (not numpy's) decide.
+    if isinstance(x, Array) and x.dtype != dtype and dtype != np.bool_:
+        expr2 = TypeCast(dtype, expr2)
+    if isinstance(y, Array) and y.dtype != dtype and dtype != np.bool_:
+        expr3 = TypeCast(dtype, expr3)
+
     return IndexLambda(
             expr=prim.If(expr1, expr2, expr3),
             shape=result_shape,
